@@ -250,6 +250,8 @@ def scase_from_json(j: dict) -> SCase:
 
 def build(c: SCase, rng: Optional[random.Random] = None):
     lazy = [] if c.pred_only else [c.v]
+    from .. import build as B
+    B.SHARE[0] = (hash(repr(c.v)) % 2 == 0)     # half of the configurations share equal sub-validators as one instance
     try:
         ctx = Ctx(G.STD_CLASSES, lazy, rng)
         if c.pred_only:
@@ -260,6 +262,8 @@ def build(c: SCase, rng: Optional[random.Random] = None):
         raise
     except Exception as e:  # the configuration cannot be constructed at all (unhashable choice, ...)
         raise HarnessError(f"unbuildable configuration: {e!r}")
+    finally:
+        B.SHARE[0] = False
     return ctx, obj
 
 
